@@ -118,6 +118,23 @@ def run(tier, seed):
     witnesses.append({"module": "RpcSurface.tla", "config": "one panicking handler", "violated": r["violated"]})
     if r["violated"] != "Alive":
         failures.append("RpcSurface witness did not violate Alive")
+    # SatLoc: a corrupted expected answer (one offset, one input value) must be rejected by the replay
+    import satloc
+    sl = satloc.run("quick")
+    cases = json.load(open(os.path.join(OUT, "satloc_cases.json")))
+    good = [c for c in cases if c["loc"]["ok"] and c["det"]["ok"]][:2]
+    if len(good) < 2 or sl["model_violation"] or sl["report"]["violations"]:
+        failures.append("SatLoc did not pass on the unchanged tree, or has no located case")
+    else:
+        bad0 = json.loads(json.dumps(good[0])); bad0["loc"]["off"] += 1
+        bad1 = json.loads(json.dumps(good[1])); bad1["det"]["vin"][0] += 1
+        cp, rp = os.path.join(OUT, "satloc_bad.json"), os.path.join(OUT, "satloc_bad_rep.json")
+        json.dump([bad0, bad1], open(cp, "w"))
+        common.run_vh(["satloc", cp, rp])
+        fns = sorted(x["fn"] for x in json.load(open(rp))["violations"])
+        witnesses.append({"module": "SatLoc.tla", "config": "corrupted offset / input value", "rejected": fns})
+        if fns != ["getLastSatLocation", "getTxDetails"]:
+            failures.append("SatLoc replay accepted a corrupted expectation: %s" % fns)
     # ---- 3. coverage of the trace specification's disjuncts over the corpora of the history checks
     need = ["AddTx:ok", "AddTx:err", "Transact:ok", "Transact:err", "Finalise:ok", "Finalise:err", "Commit:ok", "Commit:err", "Reorg:ok", "Reorg:err",
             "Mine:ok", "Mine:err", "Initialise:enverr", "Initialise:err", "Clear:ok", "Restart:ok", "EthCall:ok", "CallMany:ok", "Estimate:ok", "GetLogs:ok"]
